@@ -24,6 +24,7 @@ SPEC = dict(
         # systematic family: all programs "S1; S2" over a statement alphabet of 376 (141,752 programs), strided sample
         dict(family="tiny", n=(400, 30000), mc=dict(max_calls=10, after_end=1), invariants=FLOW),
     ],
+    ast=[("flowbig", 120, 2500), ("flow", 150, 2000)],
     cs=[dict(family="flowbig", n=(60, 400), paths=(4, 6), calls=45, layouts=True,
              label="YarnTrace: random walks of big programs under random layouts")],
     rule="systematic family `tiny` (every program S1;S2 over an alphabet of 376 statements built from 6 leaf statements, if / if-else with 3 "
